@@ -267,11 +267,122 @@ def rule_r4(F, rep):
                               ("left-over arguments are not reported" if label == "leftover" else "does not finish")), fn.loc)
 
 
+def rule_r5(F, rep, rid="C19.R5"):
+    """producer/consumer agreement of the array-argument state machine"""
+    R = rep.rule(rid, "the two steps of array-argument formatting agree on how many operands travel over the value stack: for "
+                 "every combination of field width (none / inline / `*`), precision (none / inline / `*`) and conversion "
+                 "(uses a precision or not), step 1 schedules exactly as many width/precision values as step 2 takes off "
+                 "the value stack — a disagreement pops a value that was never pushed (panic) or leaves one behind")
+    FPART = FMT + "FormatPart"
+    FCODE = FMT + "FormatCode"
+    FWIDTH = FMT + "FieldWidth"
+    code_fields = [f["n"] for f in F.adt(FCODE)["variants"][0]["fields"]]
+    fw_i, prec_i = code_fields.index("fw"), code_fields.index("prec")
+    s1 = F.fn("<%s>::do_std_format_codes_array_1" % E)
+    s2 = F.fn("<%s>::do_std_format_codes_array_2" % E)
+    rep.fn(s1, s2)
+
+    def which_field(place):
+        """'fw' / 'prec' when the place goes through that field of a FormatCode"""
+        for pr in place["p"]:
+            if pr != "*" and pr["k"] == "f" and pr.get("n") in ("fw", "prec"):
+                return pr["n"]
+        return None
+
+    def walk(fn, fw, prec, up):
+        body = fn.body
+        key = {"fw": fw, "prec": prec}
+
+        def after(w, bb, idx, st, env):
+            rv = st["rv"]
+            if rv["k"] != "discr":
+                return
+            adt = rv.get("adt")
+            pl = rv["p"]
+            if adt == FPART:
+                env[w.norm(env, pl)] = ("var", FPART, "Code")
+                env[w.norm(env, st["p"])] = w.discr_of_variant(FPART, "Code")
+            elif adt == OPTION:
+                f = which_field(pl)
+                if f:
+                    v = "None" if key[f] == "None" else "Some"
+                    env[w.norm(env, pl)] = ("var", OPTION, v)
+                    env[w.norm(env, st["p"])] = w.discr_of_variant(OPTION, v)
+            elif adt == FWIDTH:
+                f = which_field(pl)
+                if f and key[f] != "None":
+                    env[w.norm(env, pl)] = ("var", FWIDTH, key[f])
+                    env[w.norm(env, st["p"])] = w.discr_of_variant(FWIDTH, key[f])
+
+        def hook(w, bb, t, env, args):
+            n = callee_name(t) or ""
+            if n == "<%s>::uses_prec" % FCODE:
+                return up
+            if n == "<core::option::Option>::is_some" or n == "<core::option::Option>::is_none":
+                a = args[0] if args else None
+                if isinstance(a, tuple) and a[0] == "ref":
+                    k = a[1]
+                    for f, i in (("fw", fw_i), ("prec", prec_i)):
+                        if k.endswith(".%d" % i):
+                            some = key[f] != "None"
+                            return int(some if n.endswith("is_some") else not some)
+            if n.endswith("core::ops::try_trait::FromResidual>::from_residual"):
+                return ("var", "core::result::Result", "Err")
+            return None
+
+        m = em.Marker(F, body, 1, False)
+
+        def extra(w, bb, t, env):
+            if t["k"] == "call" and (callee_name(t) or "") == "<alloc::vec::Vec>::pop":
+                stn = m.stack_of(w, env, t["xs"][0])
+                if stn:
+                    return ("pop", stn)
+            return None
+        m.extra_term = extra
+        w = kwalk.Walker(F, body, on_term=m.on_term, on_stmt=m.on_stmt, after_stmt=after, call_result=hook,
+                         ordered_marks=True, want_ret=True, dedupe_marks=False)
+        outs = w.run(0, {})
+        rep.states += w.states_explored
+        return outs
+
+    n = 0
+    for fw in ("None", "Inline", "External"):
+        for prec in ("None", "Inline", "External"):
+            for up in (0, 1):
+                prod = set()
+                for o in walk(s1, fw, prec, up):
+                    if o[0] != "return" or em.is_err_return(o):
+                        continue
+                    pushes = [mk[2] for mk in o[1] if mk[0] == "push" and mk[1] == "state_stack"]
+                    names = [x[0] if isinstance(x, tuple) else x for x in pushes]
+                    if "StdFormatCodesArray2" not in names:
+                        continue          # literal part / end of the format: no operands
+                    after2 = names[names.index("StdFormatCodesArray2") + 1:]
+                    prod.add(sum(1 for x in after2 if x in ("PushU32AsValue", "DoThunk")))
+                cons = set()
+                for o in walk(s2, fw, prec, up):
+                    if o[0] != "return" or em.is_err_return(o):
+                        continue
+                    cons.add(sum(1 for mk in o[1] if mk[0] == "pop" and mk[1] == "value_stack"))
+                n += 1
+                ok = len(prod) == 1 and prod == cons
+                rep.ob(R, "array|fw=%s|prec=%s|uses_prec=%d" % (fw, prec, up), ok,
+                       {"width": fw, "precision": prec, "conversion_uses_precision": up, "scheduled_by_step1": sorted(prod),
+                        "taken_by_step2": sorted(cons)})
+                if not ok:
+                    rep.violation(R, "format-array|fw=%s|prec=%s|uses_prec=%d" % (fw, prec, up),
+                                  "array formatting with width=%s precision=%s on a conversion that %s a precision: step 1 "
+                                  "schedules %s operand value(s), step 2 takes %s off the value stack"
+                                  % (fw, prec, "uses" if up else "ignores", sorted(prod), sorted(cons)), s2.loc)
+    rep.floor(R, n, 18, "width x precision x conversion combinations")
+
+
 def run(F, rep, tier):
     rule_r1(F, rep)
     units.rule_mix(F, rep, "C19.R2")
     c01.rule_r3(F, rep)
     rule_r3(F, rep)
     rule_r4(F, rep)
+    rule_r5(F, rep)
     rep.assume("digit-exact rendering (rounding, exponent form, %g) is value-level and not decided")
     return EXPLANATION
